@@ -78,6 +78,20 @@ package crypto
 //@ callrule c33_witness_run_only_with_a_push_only_invocation_script in verifyN3Scripts
 //@   callee transaction.NewFakeTX
 //@   requires [invocation_script_cannot_end_the_run] invocationScriptOnlyPushes()
+// ... and "the run answered true" says something about the ACCOUNT only if the verification
+// script is that account's: the run proves what the two scripts compute, not whose they are.
+// The scripts are run only after the hash of the verification script - of all of it - was
+// found equal to the account (an empty script, or anybody's own script with its own answer,
+// would otherwise speak for every issuer, owner and container owner).
+//@ ghost pred verificationScriptIsTheAccounts() bool
+//@ callrule c33_verification_script_hash in verifyN3Scripts
+//@   optional
+//@   callee hash.Hash160
+//@   pureeffect
+//@   defines samearray(a0, verifScript) && sliceoff(a0, verifScript) == 0 && len(a0) == len(verifScript) && result == acc ==> verificationScriptIsTheAccounts()
+//@ callrule c33_witness_run_only_with_the_accounts_verification_script in verifyN3Scripts
+//@   callee transaction.NewFakeTX
+//@   requires [verification_script_belongs_to_the_account] verificationScriptIsTheAccounts()
 //@ func verifyN3Scripts
 //@   ensures [nil_only_if_script_answered_true] err == nil ==> scriptRunTrue()
 //@   defines err == nil ==> scriptRunTrue()
